@@ -210,6 +210,15 @@ func (idx *KVIndex) RemoveDoc(docID string) error {
 			// count is recounted from the entries, and one is subtracted below
 			field, ttype, term, _ := EntryKeyParse(entryKey)
 			termKey := TermKey(field, ttype, term)
+			if !tx.HasKey(termKey) {
+				// the field has been removed since the document was added: its
+				// term keys and entries are gone, there is nothing to count down
+				// (and no reason to refuse removing the document)
+				if err := tx.Delete(entryKey); err != nil {
+					return fmt.Errorf("failed to delete entry %s: %v", entryKey, err)
+				}
+				continue
+			}
 			count, cerr := idx.termGetCount(tx, field, ttype, term)
 
 			err = tx.Delete(entryKey)
